@@ -35,6 +35,42 @@ func initSched() {
 	cur = t
 	schedRNG = newStream("sched")
 	journal.Tasks = 1
+	if active {
+		go stallMonitor()
+	}
+}
+
+// stallMonitor: with several tasks alive, no progress of the logical clock
+// or of the scheduler for a long real time means that the task holding the
+// baton is blocked in a real (unsimulated) blocking call: the simulator
+// cannot go on and must not turn that into a verdict about crd.
+func stallMonitor() {
+	last := int64(-1)
+	idle := 0
+	for {
+		time.Sleep(2 * time.Second)
+		if exiting {
+			return
+		}
+		now := ticks + int64(journal.SchedPoints)
+		for _, f := range allStreams {
+			now += int64(f.stat.Reads)
+		}
+		if now != last {
+			last, idle = now, 0
+			continue
+		}
+		idle++
+		alive := 0
+		for _, t := range tasks {
+			if t.state != stDone {
+				alive++
+			}
+		}
+		if idle >= 20 && alive > 1 {
+			trouble("no progress for 40 s with several goroutines alive: a task is blocked outside the simulator's primitives")
+		}
+	}
 }
 
 func schedFinish() {
@@ -194,13 +230,13 @@ func spawn(fn func()) {
 
 // Go0..Go3 replace `go f(args...)`; function value and arguments are
 // evaluated by the caller, as the language specifies.
-func Go0(f func())                                      { spawn(f) }
-func Go1[A any](f func(A), a A)                         { spawn(func() { f(a) }) }
-func Go2[A, B any](f func(A, B), a A, b B)              { spawn(func() { f(a, b) }) }
-func Go3[A, B, C any](f func(A, B, C), a A, b B, c C)   { spawn(func() { f(a, b, c) }) }
-func Go0R[R any](f func() R)                            { spawn(func() { f() }) }
-func Go1R[A, R any](f func(A) R, a A)                   { spawn(func() { f(a) }) }
-func Go2R[A, B, R any](f func(A, B) R, a A, b B)        { spawn(func() { f(a, b) }) }
+func Go0(f func())                                    { spawn(f) }
+func Go1[A any](f func(A), a A)                       { spawn(func() { f(a) }) }
+func Go2[A, B any](f func(A, B), a A, b B)            { spawn(func() { f(a, b) }) }
+func Go3[A, B, C any](f func(A, B, C), a A, b B, c C) { spawn(func() { f(a, b, c) }) }
+func Go0R[R any](f func() R)                          { spawn(func() { f() }) }
+func Go1R[A, R any](f func(A) R, a A)                 { spawn(func() { f(a) }) }
+func Go2R[A, B, R any](f func(A, B) R, a A, b B)      { spawn(func() { f(a, b) }) }
 
 // yieldOthers: the running task stays runnable but lets another runnable
 // task (if any) go first, whatever the policy says about staying.
@@ -460,11 +496,11 @@ type RecvOp[T any] struct {
 }
 
 func NewRecv[T any](c *Chan[T]) *RecvOp[T] { return &RecvOp[T]{c: c} }
-func (o *RecvOp[T]) Value() T            { return o.v }
-func (o *RecvOp[T]) Value2() (T, bool)   { return o.v, o.ok }
-func (o *RecvOp[T]) ready() bool         { return o.c.canRecv() }
-func (o *RecvOp[T]) fire()               { o.v, o.ok, _ = o.c.tryRecv() }
-func (o *RecvOp[T]) unbuffered() bool    { return o.c != nil && o.c.capa == 0 }
+func (o *RecvOp[T]) Value() T              { return o.v }
+func (o *RecvOp[T]) Value2() (T, bool)     { return o.v, o.ok }
+func (o *RecvOp[T]) ready() bool           { return o.c.canRecv() }
+func (o *RecvOp[T]) fire()                 { o.v, o.ok, _ = o.c.tryRecv() }
+func (o *RecvOp[T]) unbuffered() bool      { return o.c != nil && o.c.capa == 0 }
 func (o *RecvOp[T]) register(t *task) {
 	if o.c != nil {
 		o.c.recvq = append(o.c.recvq, t)
@@ -477,9 +513,9 @@ type SendOp[T any] struct {
 }
 
 func NewSend[T any](c *Chan[T], v T) *SendOp[T] { return &SendOp[T]{c: c, v: v} }
-func (o *SendOp[T]) ready() bool               { return o.c.canSend() }
-func (o *SendOp[T]) fire()                     { o.c.trySend(o.v) }
-func (o *SendOp[T]) unbuffered() bool          { return o.c != nil && o.c.capa == 0 }
+func (o *SendOp[T]) ready() bool                { return o.c.canSend() }
+func (o *SendOp[T]) fire()                      { o.c.trySend(o.v) }
+func (o *SendOp[T]) unbuffered() bool           { return o.c != nil && o.c.capa == 0 }
 func (o *SendOp[T]) register(t *task) {
 	if o.c != nil {
 		o.c.sendq = append(o.c.sendq, t)
